@@ -593,6 +593,26 @@ O("C09.gcd12", ["C09", "C01"], "h_C01k.c", "h_C09_gcd12",
   ["gcd12"], unwind=14, solver=["minisat", "kissat", "cadical"], timeout={"quick": 600, "thorough": 1800},
   native_srcs=[x for x in LIBECHSE if x != "evrrul.c"], native_libs=["-lltdl", "-lm"],
   assumptions=["the test expression is quoted from rrul_fill_mly (one line); the filler's main loop itself is not under contract"])
+SHL = []
+for ds in (0, 1, -1):
+    SHL.append((ds, 0, 0, 0, 0))
+    for ng in (0, 1):
+        for bz, iv in ((1, 1), (0, 0), (0, 1)):
+            SHL.append((ds, 1, ng, bz, iv))
+for ds, bp, ng, bz, iv in SHL:
+    if ds == 0 and bp == 0:
+        continue
+    if not (ds == 0 and bz == 1):
+        continue  # layouts with a symbolic amount: no answer within 10 min on any back end (not registered)
+    lay = ("%sd" % {0: "", 1: "+", -1: "-"}[ds] if ds else "") + ("," if ds and bp else "") + (("%s%sB%s" % ("-" if ng else "+", "0" if bz else "b", ("-" if ng else "+") if (iv and not bz) else "")) if bp else "")
+    O("C05.shift.text.%s" % lay.replace(",", "_").replace("+", "p").replace("-", "m"), ["C05", "C17"], "h_C05s.c", "h_C05_shift_text",
+      "SHIFT written by send_rrul and read back by snarf_shift is the same shift, layout '%s' (d = 1..366 days, b = 1..366 business days): for every amount" % lay,
+      ["send_rrul", "snarf_shift"], unwind=12, solver=["minisat", "kissat", "cadical"], timeout={"quick": 600, "thorough": 1800}, replay=False, replay_note="printer and number reading stubbed",
+      defines=["-DSH_DSIGN=%d" % ds, "-DSH_BPART=%d" % bp, "-DSH_NEG=%d" % ng, "-DSH_BZERO=%d" % bz, "-DSH_INV=%d" % iv],
+      drop_checks=["--undefined-shift-check"],
+      assumptions=["fdprnt.h replaced by a recorder of the SHIFT part (characters, a placeholder digit and the value for every %d / %u): libc formatting trusted",
+                   "strtol replaced by a stub stepping over an optional sign and the digits and returning the recorded values in order: libc number reading trusted",
+                   "left shifts of negative day counts (formally undefined, arithmetic on every supported compiler) not checked"])
 O("C09.make_enum", ["C09"], "h_C09e.c", "h_C09_make_enum",
   "make_enum (the time-of-day arrays every filler indexes): for every BYHOUR within 0..23, BYMINUTE within 0..59, BYSECOND within 0..60 and every DTSTART time it writes inside its three arrays, yields 1..24 / 1..60 / 1..61 entries, each a member of its BYxxx set (DTSTART's value when the set is empty), strictly increasing; the loops terminate",
   ["make_enum"], dfcc=True, loop_contracts=True, replace=["bui31_next", "bui63_next"],
